@@ -27,11 +27,11 @@ fn visible(w: W, s: &grafeo_engine::Session, fx: &txm::Fixture) -> Option<bool> 
     };
     use grafeo_common::types::Value;
     match w {
-        W::InsertNodeGql => rows("MATCH (n:P {uid: 100}) RETURN n.uid").map(|r| !r.is_empty()),
+        W::InsertNodeGql | W::InsertNodeNamed => rows("MATCH (n:P {uid: 100}) RETURN n.uid").map(|r| !r.is_empty()),
         W::CreateNodeApi => fx.node_id.get(&101).map(|id| s.get_node(*id).is_some()),
         W::DeleteNode => rows("MATCH (n:P {uid: 4}) RETURN n.uid").map(|r| r.is_empty()),
         W::DetachDelete => rows("MATCH (n:P {uid: 2}) RETURN n.uid").map(|r| r.is_empty()),
-        W::CreateEdgeGql => rows("MATCH (a:P {uid: 1})-[r:R]->(b:P {uid: 3}) RETURN a.uid").map(|r| !r.is_empty()),
+        W::CreateEdgeGql | W::CreateEdgeNamed | W::CreateEdgeCypher | W::CreateEdgeReturn => rows("MATCH (a:P {uid: 1})-[r:R]->(b:P {uid: 3}) RETURN a.uid").map(|r| !r.is_empty()),
         W::CreateEdgeApi => fx.edge_id.get(&txm::UID_EDGE_API).map(|id| s.get_edge(*id).is_some()),
         W::DeleteEdge => rows("MATCH (a:P {uid: 1})-[r:R]->(b:P {uid: 2}) RETURN a.uid").map(|r| r.is_empty()),
         W::SetNodeProp => rows("MATCH (n:P {uid: 1}) RETURN n.v").and_then(|r| r.first().map(|x| x[0] == Value::Int64(777))),
